@@ -117,4 +117,166 @@ theorem elaborate_horizon (p : RawProj) (hG : 0 < p.G) : (elaborate p).env.upper
   have := tdiv_le_ceilDiv (stopRelOf p) p.G hG
   rw [Int.sub_zero]
   omega
+/-! ### the completion estimate of `_selectBestResources` -/
+
+/-- the estimate loop (`while remaining > 0 and idx < size`) stops at the end of the scoreboard at the latest -/
+theorem estimateAux_fuel_enough (e : Env) (σ : St) (r : Nat) (perSlot : Rat) (fuel : Nat) (cur : Int) (rem : Rat)
+    (h : (e.size - cur).toNat < fuel) :
+    estimateAux e σ r perSlot fuel cur rem = estimateAux e σ r perSlot (fuel + 1) cur rem := by
+  induction fuel generalizing cur rem with
+  | zero => omega
+  | succ f ih =>
+    rw [estimateAux.eq_def e σ r perSlot (f + 1 + 1), estimateAux.eq_def e σ r perSlot (f + 1)]
+    simp only []
+    split
+    · rename_i hc
+      simp only [Bool.and_eq_true, decide_eq_true_eq] at hc
+      exact ih (cur + 1) _ (by omega)
+    · rfl
+
+/-- `estimate` hands the loop `size + 2` units of fuel: ample from any cursor inside the scoreboard -/
+theorem estimate_fuel_ample (e : Env) (cur : Int) (h : 0 ≤ cur) : (e.size - cur).toNat < e.size.toNat + 2 := by omega
+
+end SP
+
+namespace SP
+
+/-! ### the ALAP marking (`_markTaskALAP`): a depth-first walk with a processed set -/
+
+/-- cost of the tasks of `l` not yet processed: one step to pop each, plus the predecessors it will push -/
+def restCost (e : Env) (processed : List Nat) : List Nat → Nat
+  | [] => 0
+  | t :: ts => (if processed.contains t then 0 else (e.taskD t).deps.length + 1) + restCost e processed ts
+
+theorem restCost_add_not_mem (e : Env) (processed : List Nat) (x : Nat) (l : List Nat) (h : x ∉ l) :
+    restCost e (x :: processed) l = restCost e processed l := by
+  induction l with
+  | nil => rfl
+  | cons t ts ih =>
+    have hne : t ≠ x := fun heq => h (heq ▸ List.mem_cons_self)
+    have hts : x ∉ ts := fun hm => h (List.mem_cons_of_mem _ hm)
+    simp only [restCost, List.contains_cons, ih hts]
+    have : (t == x) = false := by simpa using hne
+    simp [this]
+
+theorem restCost_add_mem (e : Env) (processed : List Nat) (x : Nat) (l : List Nat) (hnd : l.Nodup) (h : x ∈ l)
+    (hp : processed.contains x = false) :
+    restCost e (x :: processed) l + ((e.taskD x).deps.length + 1) = restCost e processed l := by
+  induction l with
+  | nil => cases h
+  | cons t ts ih =>
+    have hnd' := List.nodup_cons.mp hnd
+    rcases List.mem_cons.mp h with heq | hm
+    · subst heq
+      simp only [restCost, List.contains_cons, beq_self_eq_true, Bool.true_or, if_true, hp, Bool.false_eq_true, if_false]
+      rw [restCost_add_not_mem e processed x ts hnd'.1]
+      omega
+    · have hne : t ≠ x := fun heq => hnd'.1 (heq ▸ hm)
+      have : (t == x) = false := by simpa using hne
+      simp only [restCost, List.contains_cons, this, Bool.false_or]
+      have := ih hnd'.2 hm
+      omega
+
+theorem restCost_add_le (e : Env) (processed : List Nat) (x : Nat) (l : List Nat) :
+    restCost e (x :: processed) l ≤ restCost e processed l := by
+  induction l with
+  | nil => exact Nat.le_refl _
+  | cons t ts ih =>
+    simp only [restCost, List.contains_cons]
+    by_cases h1 : (t == x) = true
+    · simp only [h1, Bool.true_or, if_true]; omega
+    · simp only [h1, Bool.false_or]; omega
+
+/-- the measure that every step of `markAlap` decreases -/
+def alapMeasure (e : Env) (stack processed : List Nat) : Nat :=
+  stack.length + restCost e processed (List.range e.tasks.size)
+
+/-- **the fuel of the ALAP marking is never what stops it** once it exceeds the measure -/
+theorem markAlap_fuel_enough (e : Env) (fuel : Nat) (stack processed : List Nat) (σ : St)
+    (h : alapMeasure e stack processed < fuel) :
+    markAlap e fuel stack processed σ = markAlap e (fuel + 1) stack processed σ := by
+  induction fuel generalizing stack processed σ with
+  | zero => omega
+  | succ f ih =>
+    cases stack with
+    | nil => rw [markAlap.eq_def e (f + 1 + 1), markAlap.eq_def e (f + 1)]
+    | cons t rest =>
+      rw [markAlap.eq_def e (f + 1 + 1), markAlap.eq_def e (f + 1)]
+      simp only []
+      unfold alapMeasure at h
+      simp only [List.length_cons] at h
+      by_cases hc : processed.contains t = true
+      · simp only [hc, if_true]
+        exact ih rest processed σ (by unfold alapMeasure; omega)
+      · have hc' : processed.contains t = false := by simpa using hc
+        simp only [hc', Bool.false_eq_true, if_false]
+        have hle := restCost_add_le e processed t (List.range e.tasks.size)
+        split
+        · exact ih rest (t :: processed) σ (by unfold alapMeasure; omega)
+        · rename_i hleaf
+          split
+          · exact ih rest (t :: processed) σ (by unfold alapMeasure; omega)
+          · -- the predecessors are pushed: the task must be in range, and its cost is taken off
+            apply ih
+            unfold alapMeasure
+            simp only [List.length_append, List.length_map]
+            by_cases hin : t < e.tasks.size
+            · have := restCost_add_mem e processed t (List.range e.tasks.size) List.nodup_range (List.mem_range.mpr hin) hc'
+              omega
+            · have hd : e.taskD t = {} := by
+                unfold Env.taskD
+                simp [Array.getD_eq_getD_getElem?, Array.getElem?_eq_none (by omega : e.tasks.size ≤ t)]
+              rw [hd]
+              simp only [List.length_nil, Nat.zero_add]
+              omega
+
+end SP
+
+namespace SP
+
+/-- no task lists more predecessors than there are tasks (true of every project without repeated edges) -/
+def DepsBounded (e : Env) : Prop := ∀ t, (e.taskD t).deps.length ≤ e.tasks.size
+
+theorem restCost_le (e : Env) (hb : DepsBounded e) (processed : List Nat) (l : List Nat) :
+    restCost e processed l ≤ l.length * (e.tasks.size + 1) := by
+  induction l with
+  | nil => simp [restCost]
+  | cons t ts ih =>
+    simp only [restCost, List.length_cons]
+    have := hb t
+    have h2 : (ts.length + 1) * (e.tasks.size + 1) = ts.length * (e.tasks.size + 1) + (e.tasks.size + 1) := by
+      rw [Nat.add_mul]; omega
+    split <;> omega
+
+theorem restCost_le_mem (e : Env) (hb : DepsBounded e) (processed : List Nat) (a : Nat) (l : List Nat)
+    (ha : a ∈ l) (hp : processed.contains a = true) :
+    restCost e processed l + (e.tasks.size + 1) ≤ l.length * (e.tasks.size + 1) := by
+  induction l with
+  | nil => cases ha
+  | cons t ts ih =>
+    simp only [restCost, List.length_cons]
+    have h2 : (ts.length + 1) * (e.tasks.size + 1) = ts.length * (e.tasks.size + 1) + (e.tasks.size + 1) := by
+      rw [Nat.add_mul]; omega
+    rcases List.mem_cons.mp ha with heq | hm
+    · subst heq
+      simp only [hp, if_true]
+      have := restCost_le e hb processed ts
+      omega
+    · have := ih hm
+      have := hb t
+      split <;> omega
+
+/-- **the fuel `propagateAlap` hands to the marking of one anchor (`n² + n + 1`) exceeds the measure**, for every anchor `a`
+    among the tasks, whatever was processed before -/
+theorem markAlap_fuel_ample (e : Env) (hb : DepsBounded e) (a : Nat) (ha : a < e.tasks.size) (processed : List Nat)
+    (hp : processed.contains a = true) (preds : List Nat) (hpl : preds.length ≤ (e.taskD a).deps.length) :
+    alapMeasure e preds processed < e.tasks.size * e.tasks.size + e.tasks.size + 1 := by
+  unfold alapMeasure
+  have h1 := restCost_le_mem e hb processed a (List.range e.tasks.size) (List.mem_range.mpr ha) hp
+  rw [List.length_range] at h1
+  have h2 := hb a
+  have h3 : e.tasks.size * (e.tasks.size + 1) = e.tasks.size * e.tasks.size + e.tasks.size := by
+    rw [Nat.mul_add]; omega
+  omega
+
 end SP
